@@ -261,6 +261,24 @@ def _extras(tn):
     return tuple(out)
 
 
+_VIEW_NAMES = ("sites", "site_inds", "site_tags", "upper_inds", "lower_inds", "site_inds_present", "upper_inds_present",
+               "lower_inds_present", "site_tags_present")
+
+
+def derived_views(tn):
+    """the label views a structured network derives (and caches) from its naming scheme, read through the public
+    properties: they must always describe the network as it is NOW (reading them also fills the caches)"""
+    out = []
+    for nm in _VIEW_NAMES:
+        if isinstance(getattr(type(tn), nm, None), property):
+            try:
+                v = getattr(tn, nm)
+                out.append((nm, tuple(v) if isinstance(v, (tuple, list)) else repr(v)))
+            except Exception as e:   # a view that cannot be formed on this object: compared as such
+                out.append((nm, f"<{type(e).__name__}>"))
+    return tuple(out)
+
+
 def fp_tn(tn):
     return {"kind": "TN",
             "struct": (type(tn).__name__, tuple(tn.tensor_map), tuple((k, tuple(v)) for k, v in tn.ind_map.items()),
@@ -415,6 +433,9 @@ def _compare1(hx, label, a, b, mode, known, data=True):
         if data:
             hx.eq(f"{label}: value (scalar vs object)", va, vb)
         return
+    if isN(a) and isN(b) and type(a) is type(b):
+        hx.same(f"{label}: derived label views (sites / site_inds / upper_inds / lower_inds / ... read through the public properties)",
+                derived_views(a), derived_views(b))
     oa, ob = _outer(a), _outer(b)
     (ma, amb_a), (mb, amb_b) = _canon_names(a, known), _canon_names(b, known)
     ca = tuple(sorted(ma.get(i, i) for i in oa))
@@ -640,6 +661,8 @@ def A(*args, **kwargs):
 case("Tensor", "isel", "T3", A({"b": 1}), tag="int")
 case("Tensor", "isel", "T3", A({"c": slice(0, 2), "a": 0, "zz": 1}), tag="slice+int+absent")
 case("Tensor", "isel", "T3", A({"c": "r"}), tag="random", sym=False, det=False, why="draws a random vector")
+case("Tensor", "isel", "T3", A({"a": "r", "c": 1}), tag="random+int", sym=False, det=False, why="draws a random vector")
+case("Tensor", "isel", "T3", A({"b": "r", "c": slice(0, 2), "a": 1}), tag="random+slice+int", sym=False, det=False, why="draws a random vector")
 case("Tensor", "new_ind_pair_with_identity", "T3", A("l", "r", 2))
 case("Tensor", "new_ind_pair_diag", "T3", A("b", "l", "r"))
 case("Tensor", "conj", "T3")
@@ -1004,6 +1027,12 @@ case("TensorNetworkGenVector", "gate_simple", "TNGV",
 
 case("TensorNetworkGenOperator", "reindex_upper_sites", "TNGO", A("u{}", where=[0, 1]))
 case("TensorNetworkGenOperator", "reindex_lower_sites", "TNGO", A("l{}"))
+# operator receivers whose upper / lower naming scheme is changed by the call (the in-place spelling runs on a copy whose
+# cached label views have been read before: they must describe the network as it is afterwards)
+case("TensorNetworkGenOperator", "align", "TNGO", lambda hx, x: ((_genop(hx, "Y"), qtn.TN_from_edges_and_fill_fn(_fill(hx, "Z"), _TRI, 2, phys_dim=2)), {"ind_ids": ("m{}", "n{}")}),
+     tag="first-of-three", opts={"returns_self": False, "args_intact_inplace": False})
+case("TensorNetworkGenOperator", "align", "TNGO", lambda hx, x: ((_genop(hx, "Y"),), {"ind_ids": ("m{}",), "trace": True}),
+     tag="trace", opts={"returns_self": False, "args_intact_inplace": False})
 case("TensorNetworkGenOperator", "gate", "TNGO", lambda hx, x: ((_G(1)(hx, x), 1), {}))
 case("TensorNetworkGenOperator", "gate", "TNGO", lambda hx, x: ((_G(2)(hx, x), (0, 2)), {"contract": True}), tag="two,contract")
 case("TensorNetworkGenOperator", "gate_sandwich", "TNGO", lambda hx, x: ((_G(1)(hx, x), 2), {"dagger": True}))
@@ -1252,13 +1281,26 @@ def _call(x, name, args, kwargs):
         return getattr(x, name)(*args, **kwargs)
 
 
+class _CaseAbort(Exception):
+    """the case cannot continue (a failing goal has been recorded)"""
+
+
 def _guarded_plain_call(hx, label, x, method, args, kwargs, with_copy=True):
     """goal (i) around one plain call"""
     y = x.copy() if with_copy else None
     fx = fp_any(x)
     fy = fp_any(y) if with_copy else None
     watched = [(f"argument {k}", a, fp_any(a)) for k, a in list(enumerate(args)) + list(kwargs.items())]
-    r = _call(x, method, args, kwargs)
+    try:
+        r = _call(x, method, args, kwargs)
+    except P.Unsupported:
+        raise
+    except Exception as e:
+        # every case hands the method arguments from its documented domain (and, under (iii), the same labelled content in
+        # another stored axis order): an exception here is a failure of the property, not of the harness
+        hx.same(f"{label}: the plain spelling accepts arguments from its documented domain "
+                f"[{method} raised {type(e).__name__}: {str(e)[:120]}]", False, True)
+        raise _CaseAbort()
     check_unchanged(hx, f"{label}: receiver after the plain call", x, fx)
     if with_copy:
         check_unchanged(hx, f"{label}: earlier copy of the receiver after the plain call", y, fy)
@@ -1322,6 +1364,8 @@ def _run_case_body(hx, cs, tier):
         return
     # (ii) in-place spelling on a copy
     z = x.copy()
+    if isinstance(z, tc.TensorNetwork):
+        derived_views(z)          # call history: the cached label views have been read before the in-place call
     fx = fp_any(x)
     watched = [(f"argument {k}", a, fp_any(a)) for k, a in list(enumerate(args)) + list(kwargs.items())]
     a2, k2 = _fresh(args), _fresh(kwargs)
@@ -1430,7 +1474,10 @@ def pairs(mk, grp, tier):
         if tier not in cs.tiers:
             continue
         t0 = time.time()
-        run_case(mk, cs, tier)
+        try:
+            run_case(mk, cs, tier)
+        except _CaseAbort:
+            pass
         if os.environ.get("C03_TIMING"):
             print(f"  C03_TIMING {'sym' if mk.sym else 'num'} {cs.name}: {time.time() - t0:.2f}s", file=sys.stderr, flush=True)
 
